@@ -485,6 +485,12 @@ AllocBase ==
   \cup {[s |-> ARPS("own", "lan", 28, 6, 4), status |-> "own-mac"],
         [s |-> ARPS("client", "offlan", 28, 6, 4), status |-> "off-lan"],
         [s |-> ARPS("client", "zero", 46, 6, 4), status |-> "zero-ip"]}
+  \* echo replies that wake a pending ping: the reply matches the only registered waiter / one of two (app = "echo-waiter":
+  \* the driver starts Session.Ping / Ping6 before EVERY measured Parse and writes the waiter's id into the reply)
+  \cup {[s |-> [WF4("client", "lan", ProtoICMP4, 0, 0, 8 + 24, 0, 0) EXCEPT !.app = "echo-waiter"], status |-> st] :
+           st \in {"ping-pending-1", "ping-pending-2"}}
+  \cup {[s |-> [WF6("client", "lla", ProtoICMP6, 0, 0, 8 + 24, 0, 129) EXCEPT !.app = "echo-waiter"], status |-> st] :
+           st \in {"ping-pending-1", "ping-pending-2"}}
   \* layer-2 classes never create hosts
   \cup {[s |-> [Base EXCEPT !.etype = et, !.flen = 60, !.src = src], status |-> "no-ip"] :
            et \in NamedL2 \cup {EtVLAN, EtQinQ, 46, 34997}, src \in {"client", "router"}}
@@ -598,6 +604,15 @@ FieldTable == {
 }
 
 ViewNames == {r.v : r \in FieldTable} \cup {"LLDP", "Unknown880a"}
+
+(* The header fields Parse reads to classify a frame and to place its views.  C16: the views alias the buffer at the   *)
+(* offsets Parse DECODED; writing any of these fields afterwards (through the buffer or through a view) changes the   *)
+(* content of the views, never their position or length: every accessor re-fetched from the same Frame returns the   *)
+(* same pointer and length as before the write.                                                                      *)
+ClassifyingFields == {<<"Ether", "EtherType">>, <<"Ether", "Src">>, <<"IP4", "IHL">>, <<"IP4", "TotalLen">>, <<"IP4", "Protocol">>,
+                      <<"IP4", "Src">>, <<"IP6", "PayloadLen">>, <<"IP6", "NextHeader">>, <<"IP6", "Src">>,
+                      <<"UDP", "SrcPort">>, <<"UDP", "DstPort">>, <<"UDP", "Len">>, <<"TCP", "SrcPort">>, <<"TCP", "DstPort">>,
+                      <<"TCP", "HeaderLen">>, <<"ARP", "HLen">>, <<"ARP", "PLen">>, <<"ARP", "SrcIP">>, <<"ICMP", "Type">>}
 
 (* getters that are called (C01: no panic, no hang, results inside the view) but whose VALUE is not     *)
 (* compared: renderers, checksum (C15), parsers returning maps / structs (C08, C17), convenience wrappers *)
